@@ -983,6 +983,10 @@ StreamReport read_stream(vh::Case &c, const World &w, const StreamM &s, const st
 
 // timestamps of one delivered MetricData against the reader's history for the stream; [t0, t1] are the
 // harness stamps around the Collect call that delivered it
+// "each starts where its previous one ended": an own collection that delivered nothing for the stream
+// does not move the start of the next interval (the intervals of the points a reader receives abut)
+const bool kAcceptStartInsideIdleCollections = false;
+
 void check_times(vh::Case &c, const World &w, const StreamM &s, ReaderSt &st, const sdkm::MetricData &md, bool delta,
                  bool stepped, bool check_adds, const std::string &who, int64_t t0, int64_t t1)
 {
@@ -1017,8 +1021,9 @@ void check_times(vh::Case &c, const World &w, const StreamM &s, ReaderSt &st, co
   {
     int64_t expect = st.delivered ? st.prev_end : w.sdk_start;
     bool ok        = start == expect;
-    for (auto &wd : st.windows)
-      ok = ok || (wd.first <= start && start <= wd.second);
+    if (kAcceptStartInsideIdleCollections)
+      for (auto &wd : st.windows)
+        ok = ok || (wd.first <= start && start <= wd.second);
     VH_CHECK(c, ok, who << ": delta interval #" << (st.deliveries + 1) << " starts at " << start << " but "
                         << (st.delivered ? "the previous interval handed to this reader ended at " : "SDK start is ")
                         << expect << " (difference " << (start - expect) << " ns; SDK start " << w.sdk_start << ")");
